@@ -3,6 +3,7 @@ import json
 import os
 import subprocess
 import vlib
+from checks._exact import FAMS_SYM
 
 SHIM = os.path.join(vlib.VERIF, "shim", "vtbb")
 TSAN_FLAGS = ["-std=c++14", "-O1", "-g", "-w", "-fsanitize=thread", "-DVTBB_THREADS", "-D" + vlib.GUARD]
@@ -65,6 +66,12 @@ def run(tier):
                  ("explore G(5) x U, approx x3, k=2, bound 1", [["--n", 5, "--alpha", "U", "--bound", 1, "--direct-bound", 1, "--ks", "2"]]),
                  ("purity probe over G(6) x U, dim >= 4 (default schedule + probe; inputs whose reduce bodies share state get direct exploration at bound 2)",
                   [["--n", 6, "--alpha", "U", "--bound", 0, "--direct-bound", 0, "--min-dim", 4]]),
+                 ("G(5) with 5..6 edges x PM2 (all assignments of distinct powers of two: unique optima), exact x3, every reduce outcome",
+                  [["--n", 5, "--alpha", "PM2", "--min-m", 5, "--max-m", 6, "--bound", 0, "--direct-bound", 0]]),
+                 ("G(4) x A3 plus one more component = a single edge weighing 2^60, exact and approximate k in {1,2}, bound 1",
+                  [["--n", 4, "--alpha", "A3", "--plus-heavy-k2", "--bound", 1, "--direct-bound", 1], ["--n", 4, "--alpha", "A3", "--plus-heavy-k2", "--bound", 1, "--direct-bound", 1, "--ks", "1,2"]]),
+                 ("symmetric families under 60 renumberings x U (exact) and under 20 x M2 (approximate k=2), every reduce outcome",
+                  [["--families", FAMS_SYM, "--relabel", 60, "--alpha", "U", "--bound", 0, "--direct-bound", 0], ["--families", FAMS_SYM, "--relabel", 20, "--alpha", "M2", "--bound", 0, "--direct-bound", 0, "--ks", "2"]]),
                  ("dense core + pendant vertices (support vectors with >= |V| entries: the vertex-range reduction of the signed variant, with leaves that find nothing): "
                   "K7/K8 with 1-2 pendant vertices numbered last or first, K7, K8, wheel:7 x menu R3x400, all exact TBB variants, every reduce outcome, default for-schedules",
                   [["--families", "Kp:7:1,pK:7:1,Kp:7:2,Kp:8:1,K:7,K:8,wheel:7", "--alpha", "R3x400", "--bound", 0, "--direct-bound", 0, "--wchunks", 16]])]
@@ -74,6 +81,9 @@ def run(tier):
                   [["--families", "Kp:7:1,pK:7:1,Kp:7:2,pK:7:2,Kp:8:1,pK:8:1,Kp:9:1,K:7,K:8,wheel:7,wheel:8", "--alpha", a, "--bound", 0, "--direct-bound", 0, "--wchunks", 64] for a in ("R3x8000", "R9x8000")]),
                  ("dense core + pendant vertex, K7+1 x R3x2000, signed variant, bound 1 / direct bound 1",
                   [["--families", "Kp:7:1,pK:7:1", "--alpha", "R3x2000", "--bound", 1, "--direct-bound", 1, "--variants", "signed_tbb", "--wchunks", 64]])]
+        plan += [("G(5) with 5..7 edges x PM2, exact x3, every reduce outcome", [["--n", 5, "--alpha", "PM2", "--min-m", 5, "--max-m", 7, "--bound", 0, "--direct-bound", 0]]),
+                 ("symmetric families under 300 renumberings x U, bound 0; under 20 renumberings bound 1",
+                  [["--families", FAMS_SYM, "--relabel", 300, "--alpha", "U", "--bound", 0, "--direct-bound", 0], ["--families", FAMS_SYM, "--relabel", 20, "--alpha", "U", "--bound", 1, "--direct-bound", 1]])]
         plan += [("explore G(0..4) x A3, exact x3, bound 2, direct 2", [["--n", n, "--alpha", "A3", "--bound", 2, "--direct-bound", 2, "--unbounded-dim", 2] for n in range(0, 5)]),
                  ("explore G(0..4) x A2, exact x3, bound 3, direct 3", [["--n", n, "--alpha", "A2", "--bound", 3, "--direct-bound", 3, "--unbounded-dim", 2] for n in range(0, 5)]),
                  ("explore G(0..4) x A2, approx x3, k in {1,2,3}, bound 2", [["--n", n, "--alpha", "A2", "--bound", 2, "--direct-bound", 2, "--ks", "1,2,3"] for n in range(2, 5)]),
